@@ -231,7 +231,7 @@ pub fn literal(rng: &mut Rng, ty: &Ty, cfg: &ExprCfg) -> E {
             E::Cast(b(text(t)), Ty::Ts)
         }
         Ty::Iv => {
-            let t = if cfg.hostile && rng.chance(1, 5) { *rng.pick(&["2562047788015:00:00", "-2562047788015:00:00", "0:00:9223372036854775807", "99999999999:0:0"]) } else { *rng.pick(IV_POOL) };
+            let t = if cfg.hostile && rng.chance(1, 5) { *rng.pick(&["2562047788015:00:00", "-2562047788015:00:00", "0:00:9223372036854775807", "99999999999:0:0", "0:307445734561825861:0", "0:9223372036854775807:0", "1:-153722867280912931:0"]) } else { *rng.pick(IV_POOL) };
             E::Cast(b(text(t)), Ty::Iv)
         }
         Ty::Arr(e) => {
